@@ -127,19 +127,19 @@ class Check(Property):
             self.bump("kind.temperature")
             out.append({"kind": "temperature", "f": f, "a": a, "b": b,
                         "ops": [{"op": "q", "f": f, "a": a, "b": b, "auto": False}]})
-        # quantities of different dimensionality that an ACTIVE context can convert into each other: adding, subtracting and
-        # ordering them is still a DimensionalityError (the model has no contexts: same expected answer)
+        # quantities of different dimensionality that an ACTIVE context can convert into each other: adding, subtracting, ordering,
+        # floor-dividing and taking the remainder is still a DimensionalityError (the model has no contexts: same expected answer)
         CTX = [("sp", "nanometer", "terahertz"), ("sp", "terahertz", "electron_volt"), ("sp", "meter", "hertz"),
                ("boltzmann", "kelvin", "joule"), ("energy", "joule", "gram"), ("textile", "tex", "number_meter")]
         for _ in range(60 if self.tier == "quick" else 600):
             cx, ua, ub = rng.choice(CTX)
             if rng.random() < 0.5:
                 ua, ub = ub, ua
-            f = rng.choice(["add", "sub", "lt", "ge", "le", "gt"])
+            f = rng.choice(["add", "sub", "lt", "ge", "le", "gt", "floordiv", "mod", "divmod"])
             a = {"m": frac_s(Fraction(rng.randint(1, 9), rng.choice([1, 2]))), "u": [[ua, "1/1"]]}
             b = {"m": frac_s(Fraction(rng.randint(1, 9))), "u": [[ub, "1/1"]]}
             self.bump("kind.active-context")
-            out.append({"kind": "context", "ctx": cx, "inplace": rng.random() < 0.3 and f in ("add", "sub"), "f": f, "a": a, "b": b,
+            out.append({"kind": "context", "ctx": cx, "inplace": rng.random() < 0.3 and f in ("add", "sub", "floordiv", "mod"), "f": f, "a": a, "b": b,
                         "ops": [{"op": "q", "f": f, "a": a, "b": b, "auto": False}]})
         return out
 
